@@ -406,6 +406,13 @@ func Cmp(v ssa.Value) (op token.Token, x, y ssa.Value, ok bool) {
 	}
 	switch op {
 	case token.EQL, token.NEQ, token.LSS, token.LEQ, token.GTR, token.GEQ:
+		// canonical form: a constant operand (or nil) is on the right, whichever way the
+		// comparison was written (K < x  ≡  x > K)
+		_, cx := StripConv(b.X).(*ssa.Const)
+		_, cy := StripConv(b.Y).(*ssa.Const)
+		if cx && !cy {
+			return Swap(op), b.Y, b.X, true
+		}
 		return op, b.X, b.Y, true
 	}
 	return 0, nil, nil, false
